@@ -39,6 +39,7 @@ type c20state struct {
 	slots []*c20sslot
 	name  string
 	next  int
+	an    c20anoms
 }
 
 func newC20state(c *sim.Ctx, nent int, lease bool) *c20state {
@@ -149,17 +150,21 @@ func (w *c20state) exec(op sim.Op) string {
 
 func (w *c20state) check(after string) {
 	c := w.c
+	w.an.begin()
+	defer w.an.end()
 	live := map[string]*c20sslot{}
 	for _, sl := range w.slots {
 		mac, ip, ok := w.byID(sl.id)
 		if sl.live {
 			live[sl.id] = sl
 			if !ok {
-				c.Fail("others-unchanged", w.name+"/by-id/missing/after-"+after, "entity %s was not deleted but the lookup by id fails", sl.id)
-			} else if mac.String() != c20mac(sl.mac).String() || !ip.Equal(c20ip(sl.ip)) {
+				if w.an.fresh("id-missing/" + sl.id) {
+					c.Fail("others-unchanged", w.name+"/by-id/missing/after-"+after, "entity %s was not deleted but the lookup by id fails", sl.id)
+				}
+			} else if (mac.String() != c20mac(sl.mac).String() || !ip.Equal(c20ip(sl.ip))) && w.an.fresh("id-wrong/"+sl.id) {
 				c.Fail("lookups-agree", w.name+"/by-id/wrong/after-"+after, "entity %s has MAC %v IP %v, created with MAC #%d IP #%d", sl.id, mac, ip, sl.mac, sl.ip)
 			}
-		} else if ok {
+		} else if ok && w.an.fresh("id-ghost/"+sl.id) {
 			c.Fail("release", w.name+"/by-id/ghost/after-"+after, "entity %s was deleted but the lookup by id still finds it", sl.id)
 		}
 	}
@@ -176,6 +181,9 @@ func (w *c20state) check(after string) {
 				}
 			}
 			id, mac, ip, ok, dangling := w.byKey(byMac, k)
+			if (dangling || (!ok && len(owners) > 0)) && !w.an.fresh(fmt.Sprintf("%s-lost/%d", kind, k)) {
+				continue
+			}
 			switch {
 			case dangling:
 				c.Fail("lookups-agree", w.name+"/"+kind+"/dangling/after-"+after, "lookup %s #%d returns a nil entity without error (index points to a deleted entity); live owners %v", kind, k, owners)
@@ -188,7 +196,7 @@ func (w *c20state) check(after string) {
 			case ok:
 				l := live[id]
 				carries := l != nil && ((byMac && l.mac == k && mac.String() == c20mac(k).String()) || (!byMac && l.ip == k && ip.Equal(c20ip(k))))
-				if !carries {
+				if !carries && w.an.fresh(fmt.Sprintf("%s-stale/%d", kind, k)) {
 					c.Fail("lookups-agree", w.name+"/"+kind+"/stale/after-"+after, "lookup %s #%d returns %s (MAC %v IP %v) which is not a live entity with that key; live owners %v", kind, k, id, mac, ip, owners)
 				}
 			}
@@ -225,6 +233,7 @@ type c20astore struct {
 	n     int
 	model map[[2]int]int // (sub, pool) -> ip
 	ever  map[int]bool
+	an    c20anoms
 }
 
 func newC20astore(c *sim.Ctx, nent int) *c20astore {
@@ -284,9 +293,15 @@ func (w *c20astore) exec(op sim.Op, checked bool) string {
 func (w *c20astore) check(after string) {
 	c := w.c
 	ctx := context.Background()
+	w.an.begin()
+	defer w.an.end()
 	for ip := 0; ip < w.n; ip++ {
 		rec, err := w.st.GetByIP(ctx, c20ip(ip))
 		h, held := w.holder(ip)
+		found := err == nil && rec != nil
+		if (found != held || (found && (rec.SubscriberID != c20sub(h[0]) || rec.PoolID != c20pool(h[1])))) && !w.an.fresh(fmt.Sprintf("byip/%d/%v/%v", ip, found, held)) {
+			continue
+		}
 		switch {
 		case (err != nil || rec == nil) && held:
 			c.Fail("lookups-agree", "allocstore/by-ip/lost/after-"+after, "GetByIP(ip#%d) finds nothing although %s holds it in %s", ip, c20sub(h[0]), c20pool(h[1]))
@@ -313,7 +328,7 @@ func (w *c20astore) check(after string) {
 			if ip, ok := w.model[[2]int{sub, p}]; ok {
 				want = c20ip(ip).String()
 			}
-			if got[p] != want {
+			if got[p] != want && w.an.fresh(fmt.Sprintf("bysub/%d/%d", sub, p)) {
 				c.Fail("lookups-agree", "allocstore/by-subscriber/wrong/after-"+after, "GetBySubscriber(%s) has %q in %s, expected %q", c20sub(sub), got[p], c20pool(p), want)
 			}
 		}
@@ -326,7 +341,7 @@ func (w *c20astore) check(after string) {
 				n++
 			}
 		}
-		if len(recs) != n {
+		if len(recs) != n && w.an.fresh(fmt.Sprintf("bypool/%d", p)) {
 			c.Fail("lookups-agree", "allocstore/by-pool/wrong/after-"+after, "GetByPool(%s) has %d records, expected %d", c20pool(p), len(recs), n)
 		}
 	}
@@ -400,6 +415,7 @@ type c20submgr struct {
 	al    *c20alloc
 	n     int
 	slots []*c20mslot
+	an    c20anoms
 }
 
 func newC20submgr(c *sim.Ctx, nent int) *c20submgr {
@@ -481,11 +497,13 @@ func (w *c20submgr) slotOf(s *subscriber.Session) int {
 
 func (w *c20submgr) check(after string) {
 	c := w.c
+	w.an.begin()
+	defer w.an.end()
 	for i, sl := range w.slots {
 		s, ok := w.m.GetSession(sl.s.ID)
-		if sl.live && (!ok || s != sl.s) {
+		if sl.live && (!ok || s != sl.s) && w.an.fresh(fmt.Sprintf("id-missing/%d", i)) {
 			c.Fail("others-unchanged", "submgr/by-id/missing/after-"+after, "slot %d (MAC #%d) was not terminated but GetSession fails", i, sl.mac)
-		} else if !sl.live && ok {
+		} else if !sl.live && ok && w.an.fresh(fmt.Sprintf("id-ghost/%d", i)) {
 			c.Fail("release", "submgr/by-id/ghost/after-"+after, "slot %d was terminated but GetSession still finds it", i)
 		}
 	}
@@ -497,6 +515,9 @@ func (w *c20submgr) check(after string) {
 			}
 		}
 		s, ok := w.m.GetSessionByMAC(c20mac(mac))
+		if ((ok && s == nil) || (!ok && owner >= 0) || (ok && w.slotOf(s) != owner)) && !w.an.fresh(fmt.Sprintf("bymac/%d/%v/%d", mac, ok, owner)) {
+			continue
+		}
 		switch {
 		case ok && s == nil:
 			c.Fail("lookups-agree", "submgr/by-mac/dangling/after-"+after, "GetSessionByMAC(MAC #%d) reports found with a nil session", mac)
@@ -517,6 +538,9 @@ func (w *c20submgr) check(after string) {
 			}
 		}
 		s, ok := w.m.GetSessionByIP(c20ip(ip))
+		if ((ok && s == nil) || (!ok && owner >= 0) || (ok && w.slotOf(s) != owner)) && !w.an.fresh(fmt.Sprintf("byip/%d/%v/%v", ip, ok, s == nil)) {
+			continue
+		}
 		switch {
 		case ok && s == nil:
 			c.Fail("lookups-agree", "submgr/by-ip/dangling/after-"+after, "GetSessionByIP(address #%d) reports found with a nil session (index points to a terminated session)", ip)
